@@ -135,7 +135,9 @@ def stage_status_never_redirect(ctx):
     I = ctx.I
     goals = []
     for n, (e, g) in enumerate(stores(ctx, committed_only=False)):
-        goals.append((f"store{n}", z3.Implies(g, e.data["snap"]["status"].t != status(I, "REDIRECT"))))
+        ld = e.data.get("loaded") or {}
+        pre = (ld["status"].t != status(I, "REDIRECT")) if "status" in ld else TRUE  # StageStatusInv of the loaded row
+        goals.append((f"store{n}", z3.Implies(z3.And(g, pre), e.data["snap"]["status"].t != status(I, "REDIRECT"))))
     return goals
 
 
